@@ -14,7 +14,7 @@ import (
 
 func init() {
 	register(&Property{
-		ID: "C16",
+		ID:          "C16",
 		Explanation: "R1: the standard error handler is read as a decision table: all acyclic CFG paths from entry to its WriteHeader are enumerated, branch conditions are canonicalised (type assertion / errors.As to T -> is(T), errors.Is with sentinel S -> is(S), Timeout() -> timeout), the constant reaching WriteHeader on each path is resolved through the phis, and the table is compared with the specified one (net.Error&&timeout->504, net.Error->502, io.EOF->502, context.Canceled->499, else 500) on every assignment of the atoms; exactly one WriteHeader followed by a body write on every path. R2: forward.New returns an httputil.ReverseProxy whose ErrorHandler is bound to that handler; relay hooks that could alter the response (ModifyResponse, Transport, FlushInterval) are left to the stdlib, and a configured BufferPool must hand out a freshly allocated buffer per Get. R3: in the state listener the 'disconnected' notification is registered with defer, after 'connected', before the wrapped handler is invoked, with the same URL value, so it runs on every exit including the http.ErrAbortHandler panic of an aborted relay.",
 		NotDecided: []string{
 			"which Go error values the transport produces for each failure mode; 'never a hang'",
@@ -380,24 +380,49 @@ func c16Paired(p *Prog, r *Report) {
 		inFn  *ssa.Function
 	}
 	var notes []note
+	isDyn := func(cc *ssa.CallCommon) bool {
+		if cc.IsInvoke() || cc.StaticCallee() != nil || len(cc.Args) != 2 {
+			return false
+		}
+		_, ok := cc.Value.Type().Underlying().(*types.Signature)
+		return ok
+	}
 	collect := func(f *ssa.Function, viaDefer *ssa.Defer) {
 		for _, c := range Calls(f) {
 			cc := c.Common()
-			if cc.IsInvoke() || cc.StaticCallee() != nil || len(cc.Args) != 2 {
-				continue
-			}
-			if _, ok := cc.Value.Type().Underlying().(*types.Signature); !ok {
-				continue
-			}
-			st, ok := constInt(cc.Args[1])
-			if !ok {
-				continue
-			}
 			var ci ssa.CallInstruction = c
 			if viaDefer != nil {
 				ci = viaDefer
 			}
-			notes = append(notes, note{ci, st, cc.Args[0], f})
+			if isDyn(cc) {
+				if st, ok := constInt(stripConvUp(cc.Args[1])); ok {
+					notes = append(notes, note{ci, st, stripConvUp(cc.Args[0]), f})
+				}
+				continue
+			}
+			// a method of the listener that only forwards its arguments to the listener function
+			g := cc.StaticCallee()
+			if g == nil || !p.InModule(g) || g.Blocks == nil || recvNamed(g) != typ {
+				continue
+			}
+			for _, c2 := range Calls(g) {
+				cc2 := c2.Common()
+				if !isDyn(cc2) {
+					continue
+				}
+				up := func(v ssa.Value) ssa.Value {
+					if i := paramIndex(g, stripConv(v)); i >= 0 && i < len(cc.Args) {
+						return stripConv(cc.Args[i])
+					}
+					return stripConv(v)
+				}
+				if st, ok := constInt(up(cc2.Args[1])); ok && uncond(g, c2) {
+					if _, isD := c.(*ssa.Defer); isD {
+						ci = c
+					}
+					notes = append(notes, note{ci, st, up(cc2.Args[0]), f})
+				}
+			}
 		}
 	}
 	collect(fn, nil)
@@ -467,5 +492,6 @@ func mutantsC16() []Mutant {
 		{Name: "canceled-missing", File: "utils/handler.go", Old: "\t} else if errors.Is(err, context.Canceled) {\n\t\tstatusCode = StatusClientClosedRequest\n\t}", New: "\t}", More: []Edit{{"utils/handler.go", "\t\"context\"\n", ""}}, Expect: "C16.R1"},
 		{Name: "defer-after-handler", File: "forward/middlewares.go", Old: "\tdefer s.stateListener(req.URL, StateDisconnected)\n\n\ts.next.ServeHTTP(rw, req)\n", New: "\ts.next.ServeHTTP(rw, req)\n\tdefer s.stateListener(req.URL, StateDisconnected)\n", Expect: "C16.R3"},
 		{Name: "no-writeheader-on-500", File: "utils/handler.go", Old: "\tw.WriteHeader(statusCode)\n", New: "\tif statusCode != http.StatusInternalServerError {\n\t\tw.WriteHeader(statusCode)\n\t}\n", Expect: "C16.R1"},
+		{Name: "proxywriter-ignores-second-writeheader", File: "utils/netutils.go", Old: "\tp.code = code\n\tp.w.WriteHeader(code)\n", New: "\tif p.code != 0 {\n\t\treturn\n\t}\n\tp.code = code\n\tp.w.WriteHeader(code)\n", Expect: "C16.R4"},
 	}
 }
